@@ -434,9 +434,97 @@ def phase_key_injective(chk):
                  "all outputs must be pairwise distinct" % (len(sides), len(phases)), [["ab", "c"], ["a", "bc"]], viol)
 
 
+def _long_session(args):
+    n_peer, mode = args
+    sent = ([b"a-zero", b"a-one"], [b"b-%d" % i for i in range(n_peer)])
+    cfg = dict(clients=[dict(threads=[[("set_code", CODE)] + [("send", m) for m in sent[0]]], mode=mode, versions=VA),
+                        dict(threads=[[("set_code", CODE)] + [("send", m) for m in sent[1]]], mode=mode, versions=VB)],
+               explored=("down", "up", "api", "connect"))
+    vers = [json.dumps(VA, sort_keys=True), json.dumps(VB, sort_keys=True)]
+    viol = []
+
+    def build():
+        w = MailboxWorld(cfg, seed())
+        for _ in range(20000):
+            en = w.enabled()
+            if not en:
+                break
+            w.apply(en[0])
+        return w
+
+    def look(w, tag):
+        for c in w.clients:
+            got = msgs(c.app)
+            if got != sent[1 - c.ci][:len(got)]:
+                viol.append(dict(oracle="authentic-messages", sig="long-session:c%d" % c.ci,
+                                 msg="%s: client %d delivered %d messages %r..., the peer sent %d distinct ones, each once" % (
+                                     tag, c.ci, len(got), got[-3:], len(sent[1 - c.ci]))))
+            v = [x for k, x in c.app.obs if k == "versions"]
+            if v != [vers[1 - c.ci]]:
+                viol.append(dict(oracle="authentic-versions", sig="long-session:c%d" % c.ci,
+                                 msg="%s: client %d was given the peer's versions %d times (the peer encrypted them once)" % (tag, c.ci, len(v))))
+            vf = [x for k, x in c.app.obs if k == "verifier"]
+            if len(vf) != 1:
+                viol.append(dict(oracle="authentic-verifier", sig="long-session:c%d" % c.ci, msg="%s: client %d reported the verifier %d times" % (tag, c.ci, len(vf))))
+    w = build()
+    look(w, "honest session of %d+2 messages" % n_peer)
+    for c in w.clients:
+        if len(msgs(c.app)) != len(sent[1 - c.ci]):
+            viol.append(dict(oracle="harness", sig="long-session-incomplete", msg="default schedule delivered %d of %d" % (len(msgs(c.app)), len(sent[1 - c.ci]))))
+    nrep = 0
+    rebuilds = 0
+    if not viol:
+        for ci in (0, 1):
+            stored = [dict(m) for m in w.clients[ci].delivered_msgs()]
+            for j, m in enumerate(stored):
+                c = w.clients[ci]
+                w._deliver(c, dict(m), record=False)
+                nrep += 1
+                look(w, "after %d+2 messages, exact replay of stored message %d (%s from %s) to client %d" % (n_peer, j, m.get("phase"), m.get("side"), ci))
+                if viol:
+                    break
+                if any(k == "closed" for k, _ in c.app.obs) or w.escaped:
+                    # closing with an error on a replay is within the property; the remaining replays need a live session again
+                    rebuilds += 1
+                    if rebuilds > 16:
+                        break
+                    w = build()
+            if viol or rebuilds > 16:
+                break
+    seen = set()
+    viol = [v for v in viol if not (v["sig"] in seen or seen.add(v["sig"]))]
+    for v in viol:
+        v["case"] = dict(n_peer=n_peer, mode=mode)
+    return (n_peer, mode, rebuilds), nrep, viol
+
+
+def long_session_replay(chk):
+    """the server (conformant: on every re-open; or hostile) may hand a stored message to a client again at any later time: after a
+    long honest session every stored message is replayed exactly, one at a time"""
+    sizes = (2, 30, 31, 32, 33, 34, 64, 65, 130) if chk.tier == "quick" else (2, 15, 16, 17, 30, 31, 32, 33, 34, 63, 64, 65, 100, 127, 128, 129, 130, 257, 300)
+    tasks = [(n, mode) for n in sizes for mode in ("delegate", "deferred")]
+    viol = []
+    keys = set()
+    n = 0
+    ctx = mp.get_context("fork")
+    with ctx.Pool(NPROC) as pool:
+        for key, nrep, vs in pool.imap_unordered(_long_session, tasks):
+            n += nrep
+            keys.add(key)
+            viol.extend(vs)
+    chk.add_enum("long-session-replay", n, keys, "honest sessions in which the peer sends N application messages (N in %r, both API styles), run to "
+                 "quiescence on the real server; then every `message` event each client ever received (own echoes, pake, version, every phase) is "
+                 "delivered again, exactly, one at a time: nothing is delivered to the application twice, versions / verifier stay reported once "
+                 "(a client that closes on a replay is within the property; the session is rebuilt for the remaining replays)" % (sizes,), [list(t) for t in tasks[:3]], viol)
+
+
 def run(chk):
     chk.assumptions += W1_ASSUMPTIONS
     chk.assumptions.append("the adversary controls what is delivered to a client on the server->client stream; it does not hold the wormhole code")
+    if not getattr(chk, "only", None) or chk.only == "long-session-replay":
+        long_session_replay(chk)
+    if getattr(chk, "only", None) == "long-session-replay":
+        return
     enumerate_tamper(chk)
     phase_key_injective(chk)
     run_scenarios(chk, scenarios(chk.tier))
@@ -454,6 +542,11 @@ def replay(body):
         for cl in w.clients:
             print("client", cl.ci, cl.app.obs)
         vs = judge(w, _REF)
+        for v in vs:
+            print("VIOLATION-REPLAYED", v["oracle"], v["sig"], v["msg"])
+        return 1 if vs else 0
+    if body.get("case") and isinstance(body["case"], dict) and "n_peer" in body["case"]:
+        _, nrep, vs = _long_session((body["case"]["n_peer"], body["case"]["mode"]))
         for v in vs:
             print("VIOLATION-REPLAYED", v["oracle"], v["sig"], v["msg"])
         return 1 if vs else 0
